@@ -57,6 +57,16 @@ size_t varintFORSize(const varintFORMeta *meta)
     __CPROVER_assigns()
     __CPROVER_ensures(RET == FOR_HDR(meta->minValue, meta->count) + meta->count * (size_t)meta->offsetWidth);
 
+/* Case split on the callee's result.  The encoders' "out" jobs (the encoder analyses by itself) are run once per
+ * offset width W = 1..8 with -DFOR_CASE_WIDTH: there the *replaced* analysis contract additionally yields
+ * offsetWidth == W.  The enforced contract (jobs for/Analyze, for/BatchAnalyze, for/ComputeWidth, compiled without the
+ * define) proves offsetWidth == M_EXT_LEN(range), which lies in 1..8, so the eight cases are exhaustive: every concrete
+ * run of the encoder is an instance of exactly one of the eight jobs. */
+#ifdef FOR_CASE_WIDTH
+#define FOR_CASE_WIDTH_ENS __CPROVER_ensures(meta->offsetWidth == FOR_W)
+#else
+#define FOR_CASE_WIDTH_ENS
+#endif
 void varintFORAnalyze(const uint64_t *values, const size_t count, varintFORMeta *meta)
     __CPROVER_requires(count >= 1 && count <= FOR_MAXCOUNT && g_k < count)
     __CPROVER_requires(__CPROVER_r_ok(values, count * sizeof(uint64_t)) && __CPROVER_w_ok(meta, sizeof(*meta)))
@@ -65,6 +75,7 @@ void varintFORAnalyze(const uint64_t *values, const size_t count, varintFORMeta 
     __CPROVER_ensures(meta->minValue <= values[0] && values[0] <= meta->maxValue)
     __CPROVER_ensures(meta->range == meta->maxValue - meta->minValue && meta->offsetWidth == M_EXT_LEN(meta->range))
     __CPROVER_ensures(meta->count == count)
+    FOR_CASE_WIDTH_ENS
     __CPROVER_ensures(meta->encodedSize == FOR_HDR(meta->minValue, count) + count * (size_t)meta->offsetWidth);
 
 void varintFORBatchAnalyze(const uint64_t *values, const size_t count, varintFORMeta *meta)
@@ -75,24 +86,45 @@ void varintFORBatchAnalyze(const uint64_t *values, const size_t count, varintFOR
     __CPROVER_ensures(meta->minValue <= values[0] && values[0] <= meta->maxValue)
     __CPROVER_ensures(meta->range == meta->maxValue - meta->minValue && meta->offsetWidth == M_EXT_LEN(meta->range))
     __CPROVER_ensures(meta->count == count)
+    FOR_CASE_WIDTH_ENS
     __CPROVER_ensures(meta->encodedSize == FOR_HDR(meta->minValue, count) + count * (size_t)meta->offsetWidth);
 
 /* ---------------- encoders ---------------- */
 /* what the encoder leaves in dst, in terms of the analysis (MIN) it used */
+#if defined(FOR_NO_CONTENT)
+/* size and header bytes only */
+#define ENS_FOR_ENCODED(MIN)                                                                             \
+    __CPROVER_ensures(RET == FOR_HDR((MIN), count) + count * FOR_W)                                      \
+    __CPROVER_ensures(g_h >= FOR_HDR((MIN), count) || dst[g_h] == spec_for_hdr_byte((MIN), FOR_W, count, g_h))
+#elif defined(FOR_NO_HDRBYTES)
+/* payload only (the loop frame is the whole destination, so the header bytes are not tracked across the loop) */
+#define ENS_FOR_ENCODED(MIN)                                                                             \
+    __CPROVER_ensures(RET == FOR_HDR((MIN), count) + count * FOR_W)                                      \
+    __CPROVER_ensures(SPEC_LE_AT(dst + FOR_HDR((MIN), count) + g_k * FOR_W, FOR_W) == values[g_k] - (MIN))
+#else
 #define ENS_FOR_ENCODED(MIN)                                                                             \
     __CPROVER_ensures(RET == FOR_HDR((MIN), count) + count * FOR_W)                                      \
     __CPROVER_ensures(g_h >= FOR_HDR((MIN), count) || dst[g_h] == spec_for_hdr_byte((MIN), FOR_W, count, g_h)) \
     __CPROVER_ensures(SPEC_LE_AT(dst + FOR_HDR((MIN), count) + g_k * FOR_W, FOR_W) == values[g_k] - (MIN))
+#endif
 /* loop clauses of the encoders (contracts/for.loops) are written against these two macros:
  * when the caller supplies the analysis the header length is known up front (ghost g_hdr), the loop
  * frame is exactly the payload and the header bytes written before the loop stay known; otherwise the
  * minimum is only found inside the call and the loop frame is the whole destination object */
-#ifdef FOR_META_REUSE
+#if defined(FOR_META_REUSE) && !defined(FOR_NO_HDRBYTES)
 #define FOR_LOOP_FRAME __CPROVER_object_upto(dst + g_hdr, count * FOR_W)
+#define FOR_LOOP_HDR g_hdr
+#elif defined(FOR_META_REUSE)
+#define FOR_LOOP_FRAME __CPROVER_object_whole(dst)
 #define FOR_LOOP_HDR g_hdr
 #else
 #define FOR_LOOP_FRAME __CPROVER_object_whole(dst)
 #define FOR_LOOP_HDR FOR_HDR(meta->minValue, meta->count)
+#endif
+#ifdef FOR_NO_CONTENT
+#define FOR_LOOP_CONTENT_INV
+#else
+#define FOR_LOOP_CONTENT_INV __CPROVER_loop_invariant(g_k >= i || SPEC_LE_AT(dst + FOR_LOOP_HDR + g_k * FOR_W, FOR_W) == values[g_k] - meta->minValue)
 #endif
 #ifdef FOR_META_REUSE
 /* documented use: Analyze, size with varintFORSize, allocate exactly that, Encode with the same meta (C03: exact) */
@@ -131,9 +163,12 @@ void varintFORBatchAnalyze(const uint64_t *values, const size_t count, varintFOR
         __CPROVER_ensures(meta->minValue <= values[g_k] && values[g_k] <= meta->maxValue &&               \
                           meta->range == meta->maxValue - meta->minValue && meta->offsetWidth == M_EXT_LEN(meta->range)) \
         __CPROVER_ensures(meta->encodedSize == FOR_HDR(meta->minValue, count) + count * (size_t)meta->offsetWidth) \
-        __CPROVER_ensures(meta->offsetWidth != FOR_W || RET == meta->encodedSize)                         \
-        __CPROVER_ensures(meta->offsetWidth != FOR_W ||                                                  \
-                          SPEC_LE_AT(dst + FOR_HDR(meta->minValue, count) + g_k * FOR_W, FOR_W) == values[g_k] - meta->minValue);
+        __CPROVER_ensures(meta->offsetWidth == FOR_W) /* the case this job covers, see FOR_CASE_WIDTH */   \
+        /* header bytes are stated in the reuse variant only: here the header length is not known before the loop, so the \
+         * loop frame is the whole destination and knowledge about the header does not survive the loop havoc */ \
+        __CPROVER_ensures(RET == FOR_HDR(meta->minValue, count) + count * FOR_W)                         \
+        __CPROVER_ensures(SPEC_LE_AT(dst + FOR_HDR(meta->minValue, count) + g_k * FOR_W, FOR_W) == values[g_k] - meta->minValue) \
+        __CPROVER_ensures(RET == meta->encodedSize);
 #endif
 FOR_ENCODER_CONTRACT(varintFOREncode)
 FOR_ENCODER_CONTRACT(varintFORBatchEncode)
@@ -191,6 +226,32 @@ void H_forAnalyze(void) { SETG(); size_t count; __CPROVER_assume(count >= 1 && c
 void H_forBatchAnalyze(void) { SETG(); size_t count; __CPROVER_assume(count >= 1 && count <= FOR_MAXCOUNT); uint64_t *v = malloc(count * sizeof(uint64_t)); __CPROVER_assume(v != NULL); varintFORMeta m; varintFORBatchAnalyze(v, count, &m); CANARY(); }
 void H_forEncode(void) { SETG(); uint8_t *dst; uint64_t *values; size_t count; varintFORMeta *meta; varintFOREncode(dst, values, count, meta); CANARY(); }
 void H_forBatchEncode(void) { SETG(); uint8_t *dst; uint64_t *values; size_t count; varintFORMeta *meta; varintFORBatchEncode(dst, values, count, meta); CANARY(); }
+/* bounded end-to-end composition on the real functions (no contracts involved): meta == NULL and meta as out-parameter,
+ * Encode -> accessors -> Decode -> GetAt -> DecodeBlock, FOR_E2E_N elements, every width */
+#ifndef FOR_E2E_BATCH
+#define FOR_E2E_BATCH 0
+#endif
+#ifndef FOR_E2E_N
+#define FOR_E2E_N 2
+#endif
+void H_forEndToEnd(void) {
+    size_t count; __CPROVER_assume(count >= 1 && count <= FOR_E2E_N);
+    uint64_t v[FOR_E2E_N]; uint64_t out[FOR_E2E_N]; uint8_t dst[19 + 8 * FOR_E2E_N];
+    _Bool batch = FOR_E2E_BATCH, withMeta; size_t k; __CPROVER_assume(k < count);
+    varintFORMeta m; m.count = 0;
+    size_t n = batch ? varintFORBatchEncode(dst, v, count, withMeta ? &m : NULL) : varintFOREncode(dst, v, count, withMeta ? &m : NULL);
+    __CPROVER_assert(n >= 3 + count && n <= 19 + 8 * count, "FOR e2e: encoded size within the documented range");
+    __CPROVER_assert(!withMeta || (m.count == count && m.encodedSize == n && m.minValue <= v[k] && v[k] <= m.maxValue), "FOR e2e: reported metadata");
+    __CPROVER_assert(varintFORGetCount(dst) == count, "FOR e2e: header count");
+    __CPROVER_assert(varintFORGetMinValue(dst) <= v[k], "FOR e2e: header minimum");
+    size_t d = batch ? varintFORBatchDecode(dst, out, count) : varintFORDecode(dst, out, count);
+    __CPROVER_assert(d == count && out[k] == v[k], "FOR e2e: decode returns the original element");
+    __CPROVER_assert(varintFORGetAt(dst, k) == v[k], "FOR e2e: random access agrees");
+    uint64_t blk[FOR_E2E_N]; size_t start; __CPROVER_assume(start <= k);
+    size_t b = varintFORDecodeBlock(dst, blk, start, count - start);
+    __CPROVER_assert(b == count - start && blk[k - start] == v[k], "FOR e2e: block reader agrees");
+    CANARY();
+}
 void H_forReadMetadata(void) { SETG(); uint8_t *src; varintFORMeta *m; varintFORReadMetadata(src, m); CANARY(); }
 void H_forGetMinValue(void) { SETG(); uint8_t *src; varintFORGetMinValue(src); CANARY(); }
 void H_forGetCount(void) { SETG(); uint8_t *src; varintFORGetCount(src); CANARY(); }
